@@ -106,7 +106,10 @@ def execute(row, seed, policy=None):
                     raise ReplError(i)
                 if h['b'] == 'reconnect':
                     obs['reconnect_result'] = api(run, c, 'connect')
-            c.register_exception_handler(fn, *types, early=h['early'])
+            if i % 2:
+                c.register_exception_handler(fn, *types, early=h['early'])
+            else:                       # the decorator spelling of the same registration
+                c.exception_handler(*types, early=h['early'])(fn)
         api(run, c, 'connect')
         nt = run.installed.started[0]
         obs['nt'] = nt
